@@ -29,6 +29,7 @@ type Scenario struct {
 	Upstreams  int    `json:"upstreams"`
 	DataIDs    int    `json:"data_ids"`
 	PreReg     int    `json:"preregistered_ids"`
+	PreRegDup  bool   `json:"preregistered_list_repeats_an_id,omitempty"`
 	Chunks     int    `json:"chunks"`
 	AliasPct   int    `json:"alias_form_pct"`
 	PoisonPct  int    `json:"poison_pct"`
@@ -52,6 +53,7 @@ func Gen(r *rand.Rand, quickChunks int) Scenario {
 	if r.Intn(2) == 0 {
 		s.PreReg = 0
 	}
+	s.PreRegDup = s.PreReg > 0 && r.Intn(4) == 0
 	s.Chunks = 20 + r.Intn(quickChunks)
 	s.AliasPct = []int{0, 50, 70, 100}[r.Intn(4)]
 	s.PoisonPct = []int{0, 0, 2, 5}[r.Intn(4)]
@@ -166,6 +168,11 @@ func Run(s Scenario) (*Outcome, string) {
 		for i := 0; i < s.PreReg; i++ {
 			id := ids[i]
 			pre = append(pre, &id)
+			if s.PreRegDup && i == 0 {
+				// the application's list names the same data id twice
+				dup := ids[0]
+				pre = append(pre, &dup)
+			}
 		}
 		opts = append(opts, iscp.WithDownstreamDataIDs(pre))
 	}
